@@ -8,6 +8,7 @@ against the ORIGINAL target).
 
 Oracle: vf.texpr.ref_eval - the same operations applied with the `operator` module.
 """
+import collections
 import decimal
 
 from hypothesis import strategies as st
@@ -25,7 +26,11 @@ RULE = ('expressions rooted at T with 1-6 operations from {.attr, [item], [slice
         'generated type-directed against the target by reference evaluation of the prefix; ~20% of steps fail on '
         'purpose (missing attr/key/index, wrong operand type, zero division, calling a raising function); a constructed '
         'class (~1 case in 8) fails in an item / arithmetic step with an error class beyond Key/Index/Type/ZeroDivisionError: '
-        'zero-step slices, overflowing ** / * and int/int division, %-formatting failures, Decimal signals. '
+        'zero-step slices, overflowing ** / * and int/int division, %-formatting failures, Decimal signals; a slice step '
+        'that arrives at a mapping (target itself, T[\'d\'], T[\'o\'].d). Constructed class (~1 in 10): a LITERAL argument that is '
+        'an instance of a list / dict / set / tuple subclass (defaultdict with a factory, user subclasses with attributes or a '
+        'constructor that needs arguments, namedtuple; OrderedDict / Counter as controls), as positional / keyword argument, '
+        'inside a plain container argument, as index, as arithmetic operand, optionally followed by steps that read its state. '
         'Non-trivial = >= 3 operations of >= 2 kinds, or first failure at step k >= 1, or a nested T/Spec argument.')
 ASSUMPTIONS = [
     'reference = the same operation sequence applied with the operator module (vf/texpr.py: ref_eval)',
@@ -34,6 +39,10 @@ ASSUMPTIONS = [
     'that operation\'s position"); attribute steps: AttributeError; failing *call* steps only have their class checked '
     '(DESIGN.md section 6)',
     'nested T/Spec arguments are generated so that they themselves succeed',
+    'an argument that is an instance of a container SUBCLASS is neither a T / Spec nor one of the plain list / dict / tuple / set '
+    'literals treated as templates: "passed through literally" = the callee / operation gets the very object written in the '
+    'expression (identity), with its state outside the items (default_factory, attributes) and its items untouched (a T held by '
+    'it is not evaluated); == on containers ignores that state, so results are compared with it (equalish)',
 ]
 BOUNDS = {'ops': '6 quick / 8 thorough (+ up to 3 for a constructed overflow / formatting failure)', 'int operands': '1..7',
           'exponent': '<= 3 (1100 / 4000 / 10**10 only where the overflow is the point)'}
@@ -64,12 +73,126 @@ def boom(*a, **kw):
     raise ValueError('boom', len(a))
 
 
+class Getter(object):
+    """recording subscriptable: obj[key] returns (key,) - what an INDEX argument arrives as is observable"""
+    def __init__(self):
+        self._calls = []        # (leading underscore: not part of the target's snapshot, like the echo's log)
+
+    def __getitem__(self, key):
+        self._calls.append(((key,), {}))
+        return (key,)
+
+    def __repr__(self):
+        return '<at>'
+
+    def __eq__(self, other):
+        return type(other) is Getter
+
+    def __ne__(self, other):
+        return type(other) is not Getter
+
+    __hash__ = None
+
+
+# ---- literal arguments that are instances of container SUBCLASSES carrying state outside their items
+# "every other argument is passed through literally": such an object is neither a T nor a Spec, and not one of the plain
+# list / dict / tuple / set literals the module treats as templates.  It has to reach the callee / the operation as it is:
+# the same object, hence with its default_factory / attributes, and with whatever it holds (a T inside it stays a T).
+class Row(list):
+    """a list that carries a label"""
+    def __init__(self, items=(), tag=None):
+        list.__init__(self, items)
+        self.tag = tag
+
+    def __radd__(self, other):          # list + Row -> Row (the label is visible in the result of an arithmetic step)
+        return Row(list(other) + list(self), self.tag)
+
+    def __repr__(self):
+        return 'Row(%s, tag=%r)' % (list.__repr__(self), self.tag)
+
+
+class Cfg(dict):
+    """a dict that carries a name"""
+    def __init__(self, items=(), name=None):
+        dict.__init__(self, items)
+        self.name = name
+
+    def __ror__(self, other):           # dict | Cfg -> Cfg
+        return Cfg(list(dict(other).items()) + list(self.items()), self.name)
+
+    def __repr__(self):
+        return 'Cfg(%s, name=%r)' % (dict.__repr__(self), self.name)
+
+
+class Need(list):
+    """a list subclass that cannot be constructed without arguments"""
+    def __init__(self, tag, items=()):
+        list.__init__(self, items)
+        self.tag = tag
+
+    def __radd__(self, other):
+        return Need(self.tag, list(other) + list(self))
+
+    def __repr__(self):
+        return 'Need(%r, %s)' % (self.tag, list.__repr__(self))
+
+
+class NeedD(dict):
+    """a dict subclass that cannot be constructed without arguments"""
+    def __init__(self, name, items=()):
+        dict.__init__(self, items)
+        self.name = name
+
+    def __ror__(self, other):
+        return NeedD(self.name, list(dict(other).items()) + list(self.items()))
+
+    def __repr__(self):
+        return 'NeedD(%r, %s)' % (self.name, dict.__repr__(self))
+
+
+class TagSet(set):
+    """a set that carries a label"""
+    def __init__(self, items=(), tag=None):
+        set.__init__(self, items)
+        self.tag = tag
+
+    def __repr__(self):
+        return 'TagSet(%r, tag=%r)' % (sorted(self, key=repr), self.tag)
+
+
+Pt = collections.namedtuple('Pt', 'x y')
+FACTORIES = {'int': int, 'list': list, 'str': str}
+INST_STATEFUL = ('defaultdict', 'Row', 'Cfg', 'Need', 'NeedD', 'TagSet')      # type(x)() loses something
+INST_MAPS = ('defaultdict', 'Cfg', 'NeedD', 'OrderedDict', 'Counter')
+_BUILT = []         # the instances built since the list was last cleared (check: which object was given to glom)
+
+
+def _reg(name, fn):
+    def ctor(items, state):
+        obj = fn(items, state)
+        _BUILT.append(obj)
+        return obj
+    tx.LIT_CLASSES[name] = (name in INST_MAPS, ctor)
+
+
+_reg('defaultdict', lambda items, state: collections.defaultdict(FACTORIES[state], items))
+_reg('OrderedDict', lambda items, state: collections.OrderedDict(items))
+_reg('Counter', lambda items, state: collections.Counter(dict(items)))
+_reg('Row', lambda items, state: Row(items, state))
+_reg('Cfg', lambda items, state: Cfg(items, state))
+_reg('Need', lambda items, state: Need(state, items))
+_reg('NeedD', lambda items, state: NeedD(state, items))
+_reg('TagSet', lambda items, state: TagSet(items, state))
+_reg('Pt', lambda items, state: Pt(*items))
+
+
 def make_target(r):
     echo = Echo()
     t = {'n': r['n'], 'm': r['m'], 'xs': list(r['xs']), 'd': dict(r['d']), 's': r['s'], 'f': r['f'],
          'nil': None, 'echo': echo, 'boom': boom, 'tup': tuple(r['xs'][:2]), 'dec': decimal.Decimal(r['n']),
          # a value that happens to be a glom expression: data, to be passed on as it is
-         'tmpl': T['n']}
+         'tmpl': T['n'],
+         'at': Getter()}
     t['o'] = tg.Obj(a=r['m'], xs=t['xs'], echo=echo, d=t['d'], boom=boom)
     return t, echo
 
@@ -86,8 +209,115 @@ def gen_target(draw):
     }
 
 
+def gen_inst(draw):
+    """an ["inst", ...] literal: an instance of a list / dict / set / tuple subclass, most with state outside the items"""
+    S = st.sampled_from
+    cls = draw(S(['defaultdict', 'defaultdict', 'Row', 'Cfg', 'Need', 'NeedD', 'TagSet', 'Pt', 'OrderedDict', 'Counter']))
+
+    def atom():
+        k = draw(S(range(9)))
+        if k == 0:      # held by a literal: stays what it is, is never evaluated (the absent key would fail)
+            return ['T', 'T', [['[', ['s', draw(S(['n', 'xs', 'absent']))]]]]
+        if k == 1:
+            return ['Spec', ['T', 'T', [['[', ['s', draw(S(['m', 'absent']))]]]]]
+        if k == 2:
+            return ['s', draw(S(['a', 'zz']))]
+        if k == 3:
+            return ['none']
+        return ['i', draw(S(range(6)))]
+    if cls == 'Pt':
+        return ['inst', cls, [atom(), atom()], None]
+    n = draw(S([0, 1, 1, 2, 3]))
+    if cls == 'TagSet':
+        return ['inst', cls, [['i', i] for i in draw(st.lists(S(range(6)), min_size=n, max_size=n, unique=True))],
+                draw(S(['x', 'y', 0]))]
+    if cls in INST_MAPS:
+        keys = draw(st.lists(S(['a', 'k', 'p', 'zzz']), min_size=n, max_size=n, unique=True))
+        items = [[['s', k_], ['i', draw(S(range(1, 6)))] if cls == 'Counter' else atom()] for k_ in keys]
+        state = draw(S(['int', 'list', 'str'])) if cls == 'defaultdict' else (
+            None if cls in ('OrderedDict', 'Counter') else draw(S(['x', 'y', 0])))
+        return ['inst', cls, items, state]
+    return ['inst', cls, [atom() for _ in range(n)], draw(S(['x', 'y', 0]))]
+
+
+def state_read(draw, inst):
+    """steps that read, from the instance itself, what it carries besides its items"""
+    S = st.sampled_from
+    cls = inst[1]
+    if cls == 'defaultdict':
+        return draw(S([[['[', ['s', 'zzz']]], [['[', ['s', 'qq']]], [['.', 'default_factory']]]))
+    if cls == 'Counter':
+        return [['[', ['s', 'qq']]]
+    if cls in ('Row', 'Need', 'TagSet'):
+        return [['.', 'tag']]
+    if cls in ('Cfg', 'NeedD'):
+        return [['.', 'name']]
+    if cls == 'Pt':
+        return [['.', 'y']]
+    return []
+
+
+def gen_sublit(draw, target):
+    """constructed class: an instance of a container subclass as a LITERAL argument - positional / keyword argument of a
+    call, inside a plain container argument, index of an item step, operand of an arithmetic step - optionally followed by
+    steps that fetch it from what the callee returned and read its state"""
+    S = st.sampled_from
+    inst = gen_inst(draw)
+    cls = inst[1]
+    place = draw(S(['pos', 'kw', 'nested', 'index', 'operand']))
+    if place == 'operand' and cls == 'TagSet':
+        place = 'pos'
+    callee = draw(S([[['[', ['s', 'echo']]], [['[', ['s', 'o']], ['.', 'echo']]]))
+    other = lambda: _lit_for_echo(draw, target, 0)
+    read = draw(S([True, True, False]))
+    if place == 'pos':
+        before = [other() for _ in range(draw(S([0, 0, 1, 2])))]
+        after = [other() for _ in range(draw(S([0, 0, 1])))]
+        kws = [['p', other()]] if draw(S(range(4))) == 0 else []
+        steps = callee + [['(', before + [inst] + after, kws]]
+        fetch = [['[', ['i', 0]], ['[', ['i', len(before)]]]
+    elif place == 'kw':
+        kw = draw(S(['p', 'q', 'self', 'self', 'table']))
+        before = [other() for _ in range(draw(S([0, 0, 1])))]
+        steps = callee + [['(', before, [[kw, inst]] + ([['z', other()]] if draw(S(range(3))) == 0 else [])]]
+        fetch = [['[', ['i', 1]], ['[', ['s', kw]]]
+    elif place == 'nested':
+        wrap = draw(S(['list', 'tuple', 'dict']))
+        if wrap == 'dict':
+            lit = ['dict', [[['s', 'p'], inst]] + ([[['s', 'r'], other()]] if draw(st.booleans()) else [])]
+            inner = ['[', ['s', 'p']]
+        else:
+            lead = [other() for _ in range(draw(S([0, 0, 1])))]
+            lit = [wrap, lead + [inst]]
+            inner = ['[', ['i', len(lead)]]
+        if draw(st.booleans()):
+            steps = callee + [['(', [lit], []]]
+            fetch = [['[', ['i', 0]], ['[', ['i', 0]], inner]
+        else:
+            steps = callee + [['(', [], [['q', lit]]]]
+            fetch = [['[', ['i', 1]], ['[', ['s', 'q']], inner]
+    elif place == 'index':
+        if draw(S(range(3))) == 0:
+            steps = [['[', ['s', 'at']], ['[', ['tuple', [inst, other()]]]]
+            fetch = [['[', ['i', 0]], ['[', ['i', 0]]]
+        else:
+            steps = [['[', ['s', 'at']], ['[', inst]]
+            fetch = [['[', ['i', 0]]]
+    else:
+        # (list + Row, dict | defaultdict: the subclass's reflected method comes first and keeps the state in the result)
+        start = 'd' if cls in INST_MAPS else 'tup' if cls == 'Pt' else 'xs'
+        steps = [['[', ['s', start]], ['bin', '|' if cls in INST_MAPS else '+', inst]]
+        fetch = []
+        read = read and cls not in ('Pt', 'Counter')
+    if read:
+        steps = steps + fetch + state_read(draw, inst)
+    return steps
+
+
 def _lit_for_echo(draw, target, depth=1):
-    k = draw(st.integers(0, 9))
+    k = draw(st.integers(0, 10))
+    if k == 10:
+        return gen_inst(draw)
     if k <= 1:
         return ['i', draw(st.integers(-3, 9))]
     if k == 2:
@@ -128,6 +358,8 @@ def gen_step(draw, cur, target, fail):
             return ['.', draw(S(['zz', 'missing']))]
         if kind == 'item':
             if isinstance(cur, dict):
+                if draw(S(range(3))) == 0:      # a slice step that arrives at a mapping: a lookup with a slice as the key
+                    return ['[', ['slice', [draw(S([None, 0, 1])), draw(S([None, 2, -1])), draw(S([None, 1, 0]))]]]
                 return ['[', ['s', 'absent']]
             if isinstance(cur, (list, tuple, str)):
                 return ['[', draw(S([['i', 99], ['s', 'k'], ['i', -99]]))]
@@ -235,7 +467,7 @@ def gen_step(draw, cur, target, fail):
     if isinstance(cur, Echo):
         n = draw(st.integers(0, 3))
         args = [_lit_for_echo(draw, target) for _ in range(n)]
-        kws = [[kw, _lit_for_echo(draw, target)] for kw in draw(st.lists(S(['p', 'q', 'self']), max_size=2, unique=True))]
+        kws = [[kw, _lit_for_echo(draw, target)] for kw in draw(st.lists(S(['p', 'q', 'self', 'self']), max_size=2, unique=True))]
         return ['(', args, kws]
     if cur is boom:
         return ['(', [['i', 1]], []]
@@ -270,7 +502,10 @@ USUAL = {'item': (KeyError, IndexError, TypeError), 'arith': (TypeError, ZeroDiv
 HUGE = 10 ** 400            # no float can hold it
 DEC_ZERO = ['T', 'T', [['[', ['s', 'dec']], ['bin', '*', ['i', 0]]]]          # nested argument -> Decimal(0)
 EXOTIC_START = {'slice': ['xs', 'tup', 's'], 'overflow': ['n', 'm', 'f', 'xs', 's', 'tup'], 'format': ['s'],
-                'decimal': ['dec', 'dec', 'n', 'm']}
+                'decimal': ['dec', 'dec', 'n', 'm'],
+                # a slice step applied to a MAPPING (the target itself, T['d'], T['o'].d): the lookup fails - KeyError(slice)
+                # on Python >= 3.12, where slices are hashable, TypeError before - and is a failing item step like any other
+                'mapslice': ['d', 'd', 'o', 'ROOT']}
 
 
 def exotic_candidates(cls, cur, draw):
@@ -279,6 +514,13 @@ def exotic_candidates(cls, cur, draw):
     S = st.sampled_from
     B = lambda op, lit: ['bin', op, lit]
     if isinstance(cur, bool) or cur is None:
+        return []
+    if cls == 'mapslice':
+        sl = ['[', ['slice', [draw(S([None, 0, 1, -1])), draw(S([None, 2, -1, 0])), draw(S([None, None, 1, 2, 0]))]]]
+        if isinstance(cur, dict):
+            return [[sl]]
+        if isinstance(cur, tg.Obj):
+            return [[['.', 'd'], sl]]
         return []
     if cls == 'slice':
         if isinstance(cur, (list, tuple, str)):
@@ -330,7 +572,8 @@ def exotic_steps(draw, cls, cur, target):
         try:
             tx.ref_eval(cur, cand, target)
         except tx.RefFail as rf:
-            if rf.k == len(cand) - 1 and rf.nested is None and rf.kind in USUAL and not isinstance(rf.exc, USUAL[rf.kind]):
+            if rf.k == len(cand) - 1 and rf.nested is None and rf.kind in USUAL and (
+                    cls == 'mapslice' or not isinstance(rf.exc, USUAL[rf.kind])):
                 return cand
     return None
 
@@ -354,12 +597,16 @@ def gen(draw):
     target, _ = make_target(trec)
     start = draw(st.sampled_from(['n', 'n', 'm', 'xs', 'd', 's', 'f', 'o', 'echo', 'nil', 'tup', 'boom', 'dec']))
     # constructed class: the first failure is an item / arithmetic step raising an unusual error class, after `xpos` valid steps
-    exotic = draw(st.sampled_from(['slice', 'overflow', 'format', 'decimal'])) if draw(st.sampled_from(range(10))) == 0 else None
+    exotic = (draw(st.sampled_from(['slice', 'slice', 'overflow', 'format', 'decimal', 'mapslice']))
+              if draw(st.sampled_from(range(5))) == 0 else None)
     if exotic:
         start = draw(st.sampled_from(EXOTIC_START[exotic]))
-        xpos = draw(st.sampled_from([0, 0, 1, 2]))
-    steps = [['[', ['s', start]]]
-    cur = target[start]
+        xpos = draw(st.sampled_from([0, 0, 1, 2])) if exotic != 'mapslice' else 0
+    if start == 'ROOT':
+        steps, cur = [], target
+    else:
+        steps = [['[', ['s', start]]]
+        cur = target[start]
     nops = draw(st.integers(1, 8 if runner_mod.thorough() else 6))
     failed = False
     for i_op in range(nops):
@@ -394,7 +641,9 @@ def gen(draw):
             except tx.RefFail:
                 failed = True
                 cur = None
-    if draw(st.sampled_from(range(12))) == 0:
+    if draw(st.sampled_from(range(10))) == 0:
+        steps = gen_sublit(draw, target)
+    elif draw(st.sampled_from(range(12))) == 0:
         # a callable of the target called with objects of the target, resolved by nested T / Spec arguments
         own = lambda: ['T', 'T', [['[', ['s', draw(st.sampled_from(['xs', 'd', 'o', 'tmpl']))]]]]
         args = [own() if draw(st.booleans()) else ['Spec', own()] for _ in range(draw(st.integers(1, 2)))]
@@ -444,11 +693,25 @@ def _owned(target):
     return ids
 
 
+_PLAIN = (list, dict, tuple, set, frozenset)
+
+
 def equalish(a, b):
     if type(a) is not type(b):
         return False
-    if isinstance(a, type(T)):
-        return repr(a) == repr(b)       # (T expressions have no ==; the two targets hold separately built ones)
+    if isinstance(a, _PLAIN) and type(a) not in _PLAIN:
+        # an instance of a container subclass: its items AND what it carries besides them (== looks at the items only)
+        if getattr(a, 'default_factory', None) is not getattr(b, 'default_factory', None):
+            return False
+        if not equalish(dict(getattr(a, '__dict__', {})), dict(getattr(b, '__dict__', {}))):
+            return False
+        if isinstance(a, dict):
+            return (not isinstance(a, collections.OrderedDict) or list(a) == list(b)) and equalish(dict(a), dict(b))
+        if isinstance(a, (list, tuple)):
+            return equalish(list(a), list(b))
+        return set(a) == set(b)
+    if isinstance(a, (type(T), glom.Spec)):
+        return repr(a) == repr(b)       # (T expressions / Specs have no ==; the two worlds hold separately built ones)
     if type(a) in (tuple, list) and 'T[' in repr(a):
         return len(a) == len(b) and all(equalish(x, y) for x, y in zip(a, b))
     if type(a) is dict and 'T[' in repr(a):
@@ -459,6 +722,10 @@ def equalish(a, b):
         # echo result: (args, kwargs)
         return (len(a[0]) == len(b[0]) and all(equalish(x, y) for x, y in zip(a[0], b[0]))
                 and sorted(a[1]) == sorted(b[1]) and all(equalish(a[1][k], b[1][k]) for k in a[1]))
+    if type(a) in (tuple, list):
+        return len(a) == len(b) and all(equalish(x, y) for x, y in zip(a, b))
+    if type(a) is dict:
+        return a.keys() == b.keys() and all(equalish(a[k_], b[k_]) for k_ in a)
     if type(a).__name__ in ('dict_keys',):
         return list(a) == list(b)
     if callable(a) and hasattr(a, '__self__'):
@@ -491,6 +758,69 @@ def twin_steps(steps):
     return out
 
 
+def _tvals(lit):
+    """the ["tval", path] recipes of an argument recipe, plain container literals opened"""
+    if lit and lit[0] == 'tval':
+        return [lit]
+    if lit and lit[0] in ('tuple', 'list', 'fset'):
+        return [x for e in lit[1] for x in _tvals(e)]
+    if lit and lit[0] == 'dict':
+        return [x for k_, v in lit[1] for x in _tvals(k_) + _tvals(v)]
+    return []
+
+
+def _insts(lit, inside=False):
+    """(recipe, nested?) of every ["inst", ...] literal of an argument recipe that reaches the operation as a literal:
+    the argument itself or an element of a plain container literal (not what a nested T / Spec expression holds)"""
+    if lit[0] == 'inst':
+        return [(lit, inside)]
+    if lit[0] in ('tuple', 'list', 'fset'):
+        return [x for e in lit[1] for x in _insts(e, True)]
+    if lit[0] == 'dict':
+        return [x for k_, v in lit[1] for x in _insts(k_, True) + _insts(v, True)]
+    return []
+
+
+READS = (['.', 'tag'], ['.', 'name'], ['.', 'default_factory'], ['.', 'y'], ['[', ['s', 'zzz']], ['[', ['s', 'qq']])
+
+
+def sublit_labels(steps, upto):
+    """labels of the subclass-instance literals among the arguments of the first `upto` steps (those the reference evaluates)"""
+    labs = set()
+    for i, s_ in enumerate(steps[:upto]):
+        found = []
+        if s_[0] == '(':
+            found = [(x, 'nested' if n else 'positional') for a in s_[1] for x, n in _insts(a)]
+            found += [(x, 'nested' if n else 'keyword') for _, a in s_[2] for x, n in _insts(a)]
+        elif s_[0] == '[':
+            found = [(x, 'index') for x, n in _insts(s_[1])]
+        elif s_[0] == 'bin':
+            found = [(x, 'operand') for x, n in _insts(s_[2])]
+        for x, place in found:
+            labs.update(['subclass-literal', 'sublit-' + place, 'sublit-class-' + x[1]])
+            if x[1] in INST_STATEFUL:
+                labs.add('subclass-literal-stateful')
+                if upto == len(steps) and any(r_ in READS for r_ in steps[i + 1:]):
+                    labs.add('sublit-state-read')
+            if "'T'" in repr(x[2]):
+                labs.add('sublit-holds-T')
+    return labs
+
+
+def _pairs(a, b):
+    """corresponding objects of two structures that equalish() found equal, plain containers opened"""
+    yield a, b
+    if type(a) in (tuple, list) and type(b) is type(a):
+        for x, y in zip(a, b):
+            for p in _pairs(x, y):
+                yield p
+    elif type(a) is dict and type(b) is dict:
+        for k_ in a:
+            if k_ in b:
+                for p in _pairs(a[k_], b[k_]):
+                    yield p
+
+
 def check(recipe, ctx):
     steps = recipe['steps']
     if recipe.get('twin_first'):
@@ -507,12 +837,15 @@ def check(recipe, ctx):
     rt, recho = make_target(recipe['target'])
     o_rt = _owned(rt)           # (before any call: the echo's log will hold whatever it is passed)
     nested_fail = None
+    del _BUILT[:]
     try:
         exp = ('ok', tx.ref_eval(rt, steps, rt))
     except tx.RefFail as rf:
         exp = ('err', rf.k, rf.exc, rf.kind)
         nested_fail = rf.nested
+    ref_built = list(_BUILT)        # the subclass-instance literals of the reference's world
     gt, gecho = make_target(recipe['target'])
+    del _BUILT[:]
     if any(s_[0] == '(' and any(kw == 'self' for kw, _ in s_[2]) for s_ in steps):
         ctx.label('kwarg-self')
     try:
@@ -521,9 +854,11 @@ def check(recipe, ctx):
         # every step recipe is an operation Python accepts on a value (f(self=1) is a valid call of a callee that takes it):
         # T must be able to record it
         raise Mismatch('cannot-record', 'steps %r: recording the expression raised TypeError: %s' % (steps, e))
+    given = list(_BUILT)            # ... and the ones the expression handed to glom holds
     o_gt = _owned(gt)
     snap = tg.snapshot(gt)
     ctx.label('exp-' + exp[0], 'ops-%d' % min(len(steps), 4))
+    ctx.label(*sorted(sublit_labels(steps, len(steps) if exp[0] == 'ok' or nested_fail is not None else exp[1] + 1)))
     if exp[0] == 'err' and any(tx.has_nested([s_]) for s_ in steps[exp[1] + 1:]):
         ctx.label('nested-arg-after-failure')
     kinds = _kinds(steps)
@@ -549,7 +884,12 @@ def check(recipe, ctx):
         # a result that is an object of the target must be that very object
         # (not asserted through call steps: arguments are evaluated in argument mode, which
         # rebuilds list/dict values - equal, not identical; see DESIGN.md section 6)
-        if id(exp[1]) in o_rt and not isinstance(exp[1], tg._ATOM):
+        # (nor for a list / dict of the target that the harness wrote as a LITERAL argument - ["tval", ...]: like any
+        # plain container literal it is a template, the callee gets the rebuilt one and may well return that)
+        tmpl = [tx.build_lit(r_, rt) for s_ in steps for a in (s_[1] + [v for _, v in s_[2]] if s_[0] == '(' else [s_[-1]])
+                if isinstance(a, list) for r_ in _tvals(a)]
+        if id(exp[1]) in o_rt and not isinstance(exp[1], tg._ATOM) and not (
+                isinstance(exp[1], _PLAIN) and any(exp[1] is o for o in tmpl)):
             # map by position: same construction order in both targets -> compare by path
             if id(got) not in o_gt:
                 raise Mismatch('copied-object', '%s: result %r is not the object held by the target' % (where, got))
@@ -572,6 +912,9 @@ def check(recipe, ctx):
     else:
         _, k, E, kind = exp
         ctx.label('fail-' + kind, 'fail-at-%s' % ('0' if k == 0 else 'k>=1'))
+        if kind == 'item' and nested_fail is None and steps[k][0] == '[' and steps[k][1][0] == 'slice' and (
+                isinstance(E, KeyError) or 'unhashable' in str(E)):
+            ctx.label('fail-slice-on-mapping')      # (no sequence answers a slice with a KeyError / "unhashable")
         if kind in USUAL and not isinstance(E, USUAL[kind]):
             # (which of the constructed classes; a failure inside a nested argument is counted with the step kind it has there)
             fstep = (nested_fail[1] if nested_fail is not None else steps)[k]
@@ -622,9 +965,20 @@ def check(recipe, ctx):
     if len(recho.calls) != len(gecho.calls):
         raise Mismatch('call-count', '%s: echo called %d times by the reference, %d times by glom'
                        % (where, len(recho.calls), len(gecho.calls)))
-    for (ra, rk), (ga, gk) in zip(recho.calls, gecho.calls):
+    if len(rt['at']._calls) != len(gt['at']._calls):
+        raise Mismatch('call-count', '%s: <at> indexed %d times by the reference, %d times by glom'
+                       % (where, len(rt['at']._calls), len(gt['at']._calls)))
+    for (ra, rk), (ga, gk) in zip(recho.calls + rt['at']._calls, gecho.calls + gt['at']._calls):
         if not equalish((ra, rk), (ga, gk)):
             raise Mismatch('wrong-arguments', '%s: expected call %r %r, observed %r %r' % (where, ra, rk, ga, gk))
+        # "every other argument is passed through literally": an instance of a container subclass written as an argument
+        # (or as an element of a plain container argument) arrives as the very object the expression holds
+        for x_ref, x_got in _pairs((ra, rk), (ga, gk)):
+            if any(x_ref is o for o in ref_built):
+                ctx.label('sublit-identity-checked')
+                if not any(x_got is o for o in given):
+                    raise Mismatch('literal-copied', '%s: the literal argument %r reached the callee as a copy, not as the '
+                                   'object written in the expression' % (where, x_got))
     # literal (non-container) arguments are passed as the identical object
     for st_ in steps:
         if st_[0] == '(':
@@ -647,5 +1001,10 @@ SUBS = [
     Sub('replay', check, gen=gen, quick=8000, thorough=20000,
         floors={'exp-ok': 0.15, 'exp-err': 0.15, 'nested-T-arg': 0.05, 'nested-arg-after-failure': 0.05, 'fail-in-nested-arg': 0.01, 'op//': 0.02, 'fail-at-k>=1': 0.1, 'twin-recorded-first': 0.06, 'argument-identity-checked': 0.02, 'call-of-non-callable': 0.01,
                 'fail-unusual-class': 0.07, 'unusual-zero-step-slice': 0.03, 'unusual-overflow': 0.012, 'unusual-format': 0.012,
-                'unusual-decimal-signal': 0.015, 'kwarg-self': 0.015}),
+                'unusual-decimal-signal': 0.015, 'kwarg-self': 0.015,
+                # a slice step on a mapping (seed C01-I); subclass-instance literals in argument position (seed C02-J)
+                'fail-slice-on-mapping': 0.009,
+                'subclass-literal': 0.075, 'subclass-literal-stateful': 0.06, 'sublit-identity-checked': 0.065,
+                'sublit-state-read': 0.045, 'sublit-positional': 0.03, 'sublit-keyword': 0.011, 'sublit-nested': 0.012,
+                'sublit-index': 0.008, 'sublit-operand': 0.007, 'sublit-class-defaultdict': 0.03, 'sublit-holds-T': 0.02}),
 ]
